@@ -416,6 +416,7 @@ fn post_process<R, A, M, H, K, BE: Backend>(
 
         module.glwe_pack(res, cts, log_gap_out, auto_keys, scratch_2);
     } else {
-        module.glwe_trace(res, module.log_n() - log_gap_in + 1, a, auto_keys, scratch);
+        // Keeps the coefficients that are multiples of gap_in (N / 2^skip = 2^log_gap_in).
+        module.glwe_trace(res, module.log_n() - log_gap_in, a, auto_keys, scratch);
     }
 }
